@@ -69,6 +69,17 @@ type History struct {
 	NUT    *memdb.DB
 	Stats  map[string]int
 	BranchValidRefused []int // op indexes where a block valid on its own branch (builder accepted) was refused though parent known
+	Crashes []*Crash
+	snaps   map[int]*memdb.DB
+}
+
+// Crash: the process is stopped after operation Op (every commit up to then is on disk), restarted, and the
+// deliveries from Resume on are offered again.
+type Crash struct {
+	Op, Resume int
+	RestartErr bool
+	Restart    *Dump
+	Final      *Dump
 }
 
 func (w *World) observe(db *memdb.DB, acc, crashed bool) Obs {
@@ -160,6 +171,7 @@ type HistParams struct {
 	PFork    int
 	PReorg   int
 	DumpEvery int
+	Crashes  int
 }
 
 func (w *World) genHistory(p HistParams) *History {
@@ -201,6 +213,10 @@ func (w *World) genHistory(p HistParams) *History {
 		h.Ops = append(h.Ops, op)
 		if p.DumpEvery > 0 && len(h.Ops)%p.DumpEvery == 0 {
 			op.Dump = w.dump(h.NUT)
+			if h.snaps == nil {
+				h.snaps = map[int]*memdb.DB{}
+			}
+			h.snaps[len(h.Ops)-1] = h.NUT.Snapshot()
 		}
 		if n.Valid && !acc && parentKnown && !dup {
 			h.BranchValidRefused = append(h.BranchValidRefused, len(h.Ops)-1)
@@ -351,6 +367,48 @@ func (w *World) genHistory(p HistParams) *History {
 	}
 	if len(h.Ops) > 0 {
 		h.Ops[len(h.Ops)-1].Dump = w.dump(h.NUT)
+	}
+	// crash / restart: from a committed state, start up again and offer the lost deliveries (with overlap)
+	for opi, snap := range h.snaps {
+		if len(h.Crashes) >= p.Crashes {
+			break
+		}
+		db := snap.Snapshot()
+		c := &Crash{Op: opi}
+		w.bc.DB = db
+		func() {
+			defer func() {
+				if recover() != nil {
+					c.RestartErr = true
+				}
+			}()
+			// start-up as in cmd/virel-node/node.go: (genesis exists) check for reorganisations
+			err := db.Update(func(txn adb.Txn) error {
+				stats := w.bc.GetStats(txn)
+				reorged, err := w.bc.CheckReorgs(txn, stats)
+				if err != nil {
+					return err
+				}
+				if reorged {
+					return w.bc.SetStats(txn, stats)
+				}
+				return nil
+			})
+			if err != nil {
+				c.RestartErr = true
+			}
+		}()
+		c.Restart = w.dump(db)
+		c.Resume = opi + 1 - rng.Intn(4)
+		if c.Resume < 0 {
+			c.Resume = 0
+		}
+		for _, op := range h.Ops[c.Resume:] {
+			w.deliverTo(db, op.Node)
+		}
+		c.Final = w.dump(db)
+		h.Crashes = append(h.Crashes, c)
+		h.Stats["crash-restart"]++
 	}
 	// fresh node fed only the final main chain
 	top := w.nodeOfTop(h.NUT)
